@@ -69,6 +69,42 @@ def method_chain(e):
     return e, list(reversed(chain))
 
 
+def _start_ok(solve):
+    """`cur[i] = f` for every (v, i) of grad_index, f being the payload of vars[v] as Parameter::Free (anything
+    else is unreachable) - with the payload taken by let-else, by a `match` bound to a name, or by a `match`
+    that is the assigned value"""
+    for loop in A.find(solve["body"], "For"):
+        if A.iter_source(str(A.ftxt(A.strip(loop["iter"])))) != "solver.grad_index":
+            continue
+        p = loop["pat"]["pat"] if loop["pat"].get("k") == "PType" else loop["pat"]
+        if p.get("k") != "PTuple" or len(p["elems"]) != 2:
+            continue
+        v, i = A.binding_name(p["elems"][0]), A.binding_name(p["elems"][1])
+        for a in A.find(loop["body"], "Assign"):
+            m = re.fullmatch(r"(\w+)\[\*?%s\]" % re.escape(i or "?"), str(A.ftxt(a["left"])))
+            if not m:
+                continue
+            val = A.strip(a["right"])
+            src = None
+            if A.ident(val):
+                for names, scrut, dk, _st in A.variant_lets(loop["body"], "Free"):
+                    if names == [A.ident(val)] and dk == "panic":
+                        src = str(A.ftxt(A.strip(scrut)))
+            elif val.get("k") == "Match":
+                hit, others = False, True
+                for arm in val["arms"]:
+                    segs, subs = A.pat_variant(arm["pat"]) if arm["pat"].get("k") == "PTupleStruct" else (None, None)
+                    if segs and segs[-2:] == ["Parameter", "Free"] and subs and A.ident(A.strip(A.unblock(arm["body"]))) == A.binding_name(subs[0]):
+                        hit = True
+                    elif A._diverge_kind(arm["body"]) != "panic":
+                        others = False
+                if hit and others:
+                    src = str(A.ftxt(A.strip(val["e"])))
+            if src in ("vars[%s]" % v, "vars[&%s]" % v, "vars[*%s]" % v):
+                return True
+    return False
+
+
 def r1_free_fixed(rule, root=None):
     new = A.find_fn(SOL, "new", self_ty="Solver", root=root)
     # grad_index = vars.iter().filter(Free only).enumerate().map(|(i, (v, _))| (*v, i)).collect()
@@ -118,6 +154,8 @@ def r1_free_fixed(rule, root=None):
             "for($V,$I)insolver.grad_index.iter(){letParameter::Free($F)=vars[$V]else{unreachable!();};$C[*$I]=$F;}",
         ],
     )
+    if m is None and _start_ok(solve):
+        m = {}
     if m is not None:
         rule.ok("the starting point of free parameter i is its own Free(value)")
     else:
@@ -247,7 +285,7 @@ def r3_exits(rule, root=None):
     i_jac = idx(lambda s: s.startswith("solver.get_jacobian(&cur,&mutjacobian,&mutresult)"))
     i_exit = idx(lambda s: s.fmatch("ifresult.iter().all(|$V|(*$V==0.0)){break;}") is not None or s.fmatch("if!result.iter().any(|$V|(*$V!=0.0)){break;}") is not None)
     # the update: inline `cur[gi] -= step[gi]` or a same-file helper doing it (FragText follows helpers for bodies)
-    upd_frags = ["($C[$G]-=step[$G])", "($C[$G]-=$S[$G])"]
+    upd_frags = ["($C[$G]-=step[$G])", "($C[$G]-=$S[$G])", "for($P,$D)incur.iter_mut().zip(step.iter()){let$Q=*$P;(*$P-=*$D);"]
     i_upd = idx(lambda s: any(A.ftxt({"k": "Block", "stmts": [body[seq.index(s)]], "ln": 0}).fmatch(f) is not None for f in upd_frags) or any(s.fmatch(f) is not None for f in upd_frags))
     if i_upd is None:
         # behind a helper call: find the statement whose callee's body does the update
@@ -279,6 +317,11 @@ def r3_exits(rule, root=None):
             "letmut$C=false;for$G in0..cur.len(){let$P=cur[$G];(cur[$G]-=step[$G]);($C|=($P!=cur[$G]));}".replace(" ", ""),
         ],
     )
+    if m is None:
+        # the same update walking `cur` and `step` in lock step
+        mz = t.fmatch("for($P,$D)incur.iter_mut().zip(step.iter()){let$Q=*$P;(*$P-=*$D);($C|=($Q!=*$P));}")
+        if mz is not None and t.fmatch("letmut$C=false;", bind={"$C": mz["$C"]}) is not None:
+            m = mz
     if m is not None:
         rule.ok("the step is applied to every free parameter and `changed` compares old with new")
     else:
